@@ -900,7 +900,56 @@ def rule_l(ctx: Ctx) -> None:
     ctx.min_instances("token_handovers", n, 5)
 
 
-RULES = [rule_a, rule_b, rule_c, rule_d, rule_e, rule_f, rule_g, rule_h, rule_i, rule_j, rule_k, rule_l]
+def _merged_name_sites(fn: ast.AST) -> list[tuple[ast.Call, str, bool]]:
+    """Identifier(this=V).update_positions(<one node>) where the text V was extended (`V += ...`) with the text of further tokens; flag = a later call gives an explicit end."""
+    grown = set()
+    for st in ast.walk(fn):
+        if isinstance(st, ast.AugAssign) and isinstance(st.op, ast.Add) and isinstance(st.target, ast.Name) and any(
+            (isinstance(x, ast.Attribute) and norm(x.value) in ("self._prev", "self._curr") and x.attr == "text") or (isinstance(x, ast.Call) and norm(x.func) == "self._find_sql")
+            for x in ast.walk(st.value)
+        ):
+            grown.add(st.target.id)
+    out = []
+    for c in ast.walk(fn):
+        if not (isinstance(c, ast.Call) and isinstance(c.func, ast.Attribute) and c.func.attr == "update_positions" and isinstance(c.func.value, ast.Call)
+                and norm(c.func.value.func).split(".")[-1] == "Identifier"):
+            continue
+        ctor = c.func.value
+        name_arg = next((k.value for k in ctor.keywords if k.arg == "this"), ctor.args[0] if ctor.args else None)
+        if not (isinstance(name_arg, ast.Name) and name_arg.id in grown):
+            continue
+        explicit_here = any(k.arg == "end" for k in c.keywords)
+        later_explicit = any(isinstance(x, ast.Call) and isinstance(x.func, ast.Attribute) and x.func.attr == "update_positions" and any(k.arg == "end" for k in x.keywords) and x.lineno > c.lineno
+                             for x in ast.walk(fn))
+        out.append((c, name_arg.id, explicit_here or later_explicit))
+    return out
+
+
+def rule_m(ctx: Ctx) -> None:
+    ctx.rule("C13.m", "a name merged from several tokens records the span of all of them: when a parser builds an Identifier from a text that it extended with the text of further "
+                      "tokens (`name += self._prev.text` / `self._find_sql(...)`) and copies the positions of the first fragment, it also states the end of the last one "
+                      "(update_positions(..., end=...)) — otherwise meta start/end select only the first fragment of the name")
+    probe = ast.parse("def f(self, this):\n    n = this.name\n    n += self._prev.text\n    return exp.Identifier(this=n).update_positions(this)\n").body[0]
+    ctx.require(len(_merged_name_sites(probe)) == 1 and not _merged_name_sites(probe)[0][2], "positive control failed: merged name site not recognised")
+    n = 0
+    for m in ctx.repo.modules.values():
+        if not (m.name == "sqlglot.parser" or m.name.startswith("sqlglot.parsers.")):
+            continue
+        for f in m.funcs.values():
+            if ".<locals>." in f.qualname:
+                continue
+            for c, var, ok in _merged_name_sites(f.node):
+                n += 1
+                if ok:
+                    ctx.ok(f"{f.key}|{norm(c, 70)}", {"merged_text": var, "end": "explicit"})
+                else:
+                    ctx.fail(m, c, f.key, c, f"`{norm(c, 80)}`: `{var}` was extended with the text of further tokens, but the identifier takes line / col / start / end from the first "
+                                             f"fragment only: the recorded span does not select the whole name")
+    ctx.count("merged_name_sites", n)
+    ctx.min_instances("merged_name_sites", n, 2)
+
+
+RULES = [rule_a, rule_b, rule_c, rule_d, rule_e, rule_f, rule_g, rule_h, rule_i, rule_j, rule_k, rule_l, rule_m]
 EXPLANATION = (
     "Representation invariants of the scanner cursor checked symbolically on every block that writes _current (linear "
     "normal form of offsets with local resolution, so the str.find and alnum fast paths are covered), the token stamp, "
